@@ -230,6 +230,8 @@ macro_rules! observe_num {
             let t: ($t, $t) = a.clone().into();
             r["tuple_lo"] = t.0.to_pos(n, ty);
             r["tuple_hi"] = t.1.to_pos(n, ty);
+            // the pair must carry the very same values as the accessors (sign of zero included: compared through Debug)
+            r["tuple_repr_eq"] = json!(format!("{:?}", t.0) == format!("{:?}", a.$lowf()) && format!("{:?}", t.1) == format!("{:?}", a.$highf()));
             r["has_width_fn"] = json!(true);
             r["width"] = match a.width() {
                 Some(w) => json!({"some": true, "v": (w as f64 / ($step as f64)) as i64}),
@@ -432,6 +434,16 @@ fn approx(case: &Value) -> Value {
     ev["res"] = json!(whole(&a, &b));
     ev["res_sym"] = json!(whole(&b, &a));
     ev["res_refl"] = json!(whole(&a, &a));
+    // what the element type says about each bound compared with itself (false for a negative epsilon)
+    ev["self_lo"] = json!(a.left().map(|x| near(*x, *x)).unwrap_or(true));
+    ev["self_hi"] = json!(a.right().map(|x| near(*x, *x)).unwrap_or(true));
+    // the default tolerances are the element type's
+    ev["defaults_same"] = json!(<Interval<f64> as AbsDiffEq>::default_epsilon() == f64::default_epsilon()
+        && <Interval<f64> as RelativeEq>::default_max_relative() == f64::default_max_relative()
+        && <Interval<f64> as UlpsEq>::default_max_ulps() == f64::default_max_ulps()
+        && <Interval<f32> as AbsDiffEq>::default_epsilon() == f32::default_epsilon()
+        && <Interval<f32> as RelativeEq>::default_max_relative() == f32::default_max_relative()
+        && <Interval<f32> as UlpsEq>::default_max_ulps() == f32::default_max_ulps());
     ev["exact_eq"] = json!(a == b);
     // element-level results of the element type's own comparison, per bound pair
     if let (Some(x), Some(y)) = (a.left(), b.left()) {
